@@ -83,6 +83,26 @@ func runC07x(c c07Case, st *c07Stats, prof *[][]IOEvent) *Mismatch {
 	dirtyTail := false // a failed Flush advanced the store size past the last root record
 	var frecs []frec
 	modelable := c.ModelTie
+	// read side of the fault model (LazyFault): a key-only lookup right after a re-open whose k-th ReadAt fails,
+	// and the retried call
+	fresh := false
+	type pendingRF struct {
+		op      Op
+		k       int
+		attempt string
+		img     []byte
+	}
+	var pend *pendingRF
+	readList := func(evs []IOEvent) (string, bool) {
+		parts := []string{"r"}
+		for _, e := range evs {
+			if e.Kind != 'R' {
+				return "", false
+			}
+			parts = append(parts, fmt.Sprintf("%d:%d", e.Off, e.Len))
+		}
+		return strings.Join(parts, " "), true
+	}
 	digest := func() string {
 		b := w.File.Bytes()
 		return fmt.Sprintf("%d %x", len(b), md5.Sum(b))
@@ -167,6 +187,12 @@ func runC07x(c c07Case, st *c07Stats, prof *[][]IOEvent) *Mismatch {
 		}
 		if op.K == "flush" && op.H == 0 && gkvlite.VerifStoreSize(w.H[0].Store) != sizeB0 {
 			dirtyTail = true
+		}
+		if c.ModelTie && fresh && op.K == "geti" && !op.WV && op.H == 0 {
+			evs := w.File.LogFrom(l0)
+			if rl, ok := readList(evs); ok && len(evs) > 0 && evs[len(evs)-1].Fail {
+				pend = &pendingRF{op: op, k: len(evs) - 1, attempt: rl, img: w.File.Bytes()}
+			}
 		}
 		if modelable {
 			if op.K == "flush" && op.H == 0 {
@@ -271,6 +297,7 @@ func runC07x(c c07Case, st *c07Stats, prof *[][]IOEvent) *Mismatch {
 			continue
 		}
 		done := false
+		lastGot := ""
 		for _, sp := range plan[i] {
 			if done {
 				break
@@ -280,6 +307,7 @@ func runC07x(c c07Case, st *c07Stats, prof *[][]IOEvent) *Mismatch {
 				return m
 			}
 			if !fired {
+				lastGot = obs
 				record(op, obs)
 				if m := finish(i, op, obs, "call whose planned fault position was not reached"); m != nil {
 					return m
@@ -292,6 +320,7 @@ func runC07x(c c07Case, st *c07Stats, prof *[][]IOEvent) *Mismatch {
 		if !done {
 			l0 := w.File.LogLen()
 			got := w.Do(op)
+			lastGot = got
 			if !w.Hang && got != "PANIC" {
 				if m := w.IO.checkIO(op, got, w.File.LogFrom(l0), op.H == 0); m != nil {
 					m.Step, m.Op = i, op.String()
@@ -305,10 +334,29 @@ func runC07x(c c07Case, st *c07Stats, prof *[][]IOEvent) *Mismatch {
 				*prof = append(*prof, w.File.LogFrom(l0))
 			}
 			record(op, got)
+			if pend != nil {
+				if pend.op.String() == op.String() {
+					if rl, ok := readList(w.File.LogFrom(l0)); ok {
+						rc := w.H[0].Ref.Colls[op.Name]
+						if rc != nil {
+							exp, err := getModel().request(fmt.Sprintf("faultreads %d %s %s %d %s", rc.Cmp, hx([]byte(op.Name)), hx(op.Key), pend.k, hexFile(pend.img)))
+							if err == nil {
+								readFaultsCompared++
+								if want := "failed " + pend.attempt + " | " + rl; exp != want {
+									return &Mismatch{Step: i, Op: op.String(), Kind: "fault-reads-vs-model", Expected: exp, Observed: want,
+										Note: fmt.Sprintf("ReadAt calls of the lookup whose call %d failed, and of the retried lookup, vs LazyFault.get_fault_reads", pend.k)}
+								}
+							}
+						}
+					}
+				}
+				pend = nil
+			}
 			if m := finish(i, op, got, "fault-free call (possibly after earlier failed calls)"); m != nil {
 				return m
 			}
 		}
+		fresh = op.K == "reopen" && op.H == 0 && lastGot == "ok"
 	}
 	if m := verify(len(ops), Op{K: "end"}, "at the end of the history"); m != nil {
 		return m
@@ -569,6 +617,51 @@ func checkC07(rep *Report, rng *Rng, tier string) {
 			}
 		}
 	}
+	// mode D: a key-only lookup right after a re-open (nothing cached) with every one of its ReadAt calls made to fail
+	// in turn, then retried: the calls of the failed attempt and of the retry are compared with LazyFault.get_fault_reads
+	nD := 6
+	if tier == "thorough" {
+		nD = 120
+	}
+	for i := 0; i < nD && len(rep.Violations) == 0; i++ {
+		r := rng.Fork()
+		g := GenCfg{FileBacked: true, NColls: 1, NOps: 20 + r.Intn(60), PrioMode: 2, NKeys: 8 + r.Intn(30)}
+		ops := GenHistory(r, g)
+		var keys [][]byte
+		for _, o := range ops {
+			if o.K == "set" && len(o.Key) > 0 {
+				keys = append(keys, o.Key)
+			}
+		}
+		if len(keys) == 0 {
+			continue
+		}
+		name := ops[0].Name
+		ops = append(ops, Op{K: "flush"})
+		base := opsString(ops)
+		for j := 0; j < 3 && len(rep.Violations) == 0; j++ {
+			key := keys[r.Intn(len(keys))]
+			if r.Chance(1, 4) {
+				key = append(append([]byte{}, key...), 'x') // usually absent
+			}
+			c := c07Case{Ops: append(append([]string{}, base...), opsString([]Op{{K: "reopen"}, {K: "geti", Name: name, Key: key}})...), ModelTie: true}
+			step := len(c.Ops) - 1
+			prof := c07Profile(c)
+			if step >= len(prof) {
+				continue
+			}
+			for k := range prof[step] {
+				x := c
+				x.Plan = []faultSpec{{Step: step, K: k + 1}}
+				rep.Evaluations++
+				if m := runC07(x, st); m != nil {
+					report(x, m)
+					break
+				}
+			}
+		}
+	}
+	rep.Extra["lookups_with_a_failing_read_compared_with_model"] = readFaultsCompared
 	rep.Extra["fault_runs_compared_with_byte_level_model"] = dfaultCompared
 	rep.Extra["failed_flushes_compared_with_flush_fault"] = dfaultFlushFails
 	for k, n := range st.Known {
